@@ -452,7 +452,24 @@ def raii_only(ctx, rid, files, floor=20):
             pos = f.pos_of(st)
             dbl = m is not None and pos is not None and any(
                 v.mutex == m and v.st in (HELD, MAYBE) for v in la.state_at(pos).values())
-            if dbl:
+            adopted_twice = None
+            if txt.startswith("adopt_lock constructor") and st.get("args"):
+                # `lock_type(*other.mutex(), std::adopt_lock)`: the mutex is taken from a lock object that keeps owning it
+                a0 = unwrap(f, f.s(st["args"][0]))
+                if a0 is not None and a0["k"] == "UnaryOperator" and a0.get("op") == "*":
+                    a0 = unwrap(f, f.children(a0)[0])
+                if a0 is not None and a0["k"] == "CXXMemberCallExpr" and (a0.get("callee") or {}).get("name") == "mutex":
+                    owner = path(f, f.s(a0.get("obj")))
+                    released = any(s2["k"] == "CXXMemberCallExpr" and (s2.get("callee") or {}).get("name") == "release" and
+                                   path(f, f.s(s2.get("obj"))) == owner for s2 in f.stmts.values())
+                    if owner and not released:
+                        adopted_twice = owner
+            if adopted_twice:
+                ctx.ob(rid, False, f.loc(st), "%s contains no raw mutex operation" % f.name,
+                       "adopt_lock on the mutex of %s, which keeps owning it: one acquisition now has two owners and is released "
+                       "twice (the second holder is left without protection as soon as the first lets go)" % adopted_twice,
+                       fn=f.label, inst=f.qname)
+            elif dbl:
                 ctx.ob(rid, False, f.loc(st), "%s contains no raw mutex operation" % f.name,
                        txt + " while an RAII guard of this function owns the same mutex (it is unlocked a second time when the guard dies)",
                        fn=f.label, inst=f.qname)
